@@ -2,7 +2,7 @@
   C04, object-layer memory safety as theorems — third continuation (same statement shape `Safe` as C04_allocsafe{,2,3}.lean:
   `ok = true`, destination well formed, every other variable untouched, value-level view = the list-level result; plus the
   integer identity).  Property theorems only; helper lemmas live in MpirProofs/Lemmas/AllocSafeCfdiv2.lean (mpz/cfdiv_q_2exp.c),
-  AllocSafeAorsmul.lean (mpz/aorsmul_i.c, aorsmul.c), AllocSafeMulC.lean (mpz/mul.c), AllocSafeTdiv.lean (mpz/tdiv_q.c, tdiv_r.c), AllocSafeMpf.lean (mpf/urandomb.c), AllocSafeSqrt.lean (mpz/sqrt.c).
+  AllocSafeAorsmul.lean (mpz/aorsmul_i.c, aorsmul.c), AllocSafeMulC.lean (mpz/mul.c), AllocSafeTdiv.lean (mpz/tdiv_q.c, tdiv_r.c), AllocSafeMpf.lean (mpf/urandomb.c), AllocSafeSqrt.lean (mpz/sqrt.c), AllocSafeTdivQr.lean (mpz/tdiv_qr.c).
 
   Models: Mpir/Model/AllocSafeMpz3.lean (cfdiv_q_2exp), Mpir/Model/AllocSafeMpz4.lean (everything else here).
   Tied by ops `as3_cdiv_q_2exp`, `as3_fdiv_q_2exp` (part c04_allocsafe3) and `as4_*` (harness/ops_allocsafe4.c; ALLOC SIZ value
@@ -15,6 +15,7 @@ import MpirProofs.Lemmas.AllocSafeMulC
 import MpirProofs.Lemmas.AllocSafeTdiv
 import MpirProofs.Lemmas.AllocSafeMpf
 import MpirProofs.Lemmas.AllocSafeSqrt
+import MpirProofs.Lemmas.AllocSafeTdivQr
 import MpirProofs.Props.C01_mpz
 namespace Mpir.AllocSafe
 open Mpir
@@ -189,7 +190,7 @@ example : (mul 17 false 1 ex4 0 3 2).ok = true := by decide
 example : (mul 17 true 0 ex4 2 2 1).ok = false := by decide
 
 /-! ## mpz_tdiv_q (mpz/tdiv_q.c), mpz_tdiv_r (mpz/tdiv_r.c)
-    (mpz_tdiv_qr and the rest of the division family: pointer-level theorems of part c05_ptr, Props/C05_mpz.lean) -/
+    (the rest of the division family: pointer-level theorems of part c05_ptr, Props/C05_mpz.lean) -/
 
 /-- mpz_tdiv_q (mpz/tdiv_q.c), den ≠ 0 (the C raises DIVIDE_BY_ZERO otherwise), every allocation and alias pattern
     (quot == num, quot == den, num == den, all one): `MPZ_REALLOC (quot, ql)` with `ql = nl - dl + 1` is exactly the number of
@@ -275,6 +276,40 @@ example : (mpf_urandomb 0 (mkF 2) (.mt Rand.mtDefault) 200).1.ok = true :=
   (mpf_urandomb_dest_safe _ _ _ rfl ⟨by simp [mkF, Buf.new], rfl⟩).1
 example : (mpf_urandomb 1 (mkF 2) (.mt Rand.mtDefault) 200).1.ok = false :=
   mpf_urandomb_seeded_unsafe _ _ _ ⟨by simp [mkF, Buf.new], rfl⟩ (by decide)
+
+/-! ## mpz_tdiv_qr (mpz/tdiv_qr.c): two destinations -/
+
+/-- mpz_tdiv_qr (mpz/tdiv_qr.c), den ≠ 0, quot and rem different variables (the manual), every allocation and every other alias
+    pattern (quot or rem may be num or den, num may be den): `MPZ_REALLOC (rem, dl)` and `MPZ_REALLOC (quot, ql)` are exactly the
+    limbs mpn_tdiv_qr stores; the operand pointers are fetched after both reallocations; an operand that is one of the outputs is
+    copied to temporary space; `qp[ql - 1]` and MPN_NORMALIZE (rp, dl) read what was written — the quotient limb after the
+    remainder has been stored into the other block; `SIZ (quot) = 0` follows the copy to rem when `ql <= 0`.  Both outputs are
+    well formed, no other variable is touched, `quot = tdiv (num, den)`, `rem = tmod (num, den)`. -/
+theorem mpz_tdiv_qr_alloc_safe (s : St) (q r n d : Nat) (hs : s.ok = true)
+    (hq : OWF (s.h q)) (hr : OWF (s.h r)) (hn : OWF (s.h n)) (hd : OWF (s.h d)) (hd0 : (s.h d).size ≠ 0) (hqr : q ≠ r) :
+    ∃ s', mpz_tdiv_qr s q r n d = some s' ∧ s'.ok = true ∧ OWF (s'.h q) ∧ OWF (s'.h r) ∧
+      (∀ x, x ≠ q → x ≠ r → s'.h x = s.h x) ∧
+      view (s'.h q) = Spec.tdiv_q (view (s.h q)) (view (s.h n)) (view (s.h d)) ∧
+      view (s'.h r) = Spec.tdiv_r (n == r) (view (s.h r)) (view (s.h n)) (view (s.h d)) ∧
+      Mpz.toInt (view (s'.h q)) = Int.tdiv (Mpz.toInt (view (s.h n))) (Mpz.toInt (view (s.h d))) ∧
+      Mpz.toInt (view (s'.h r)) = Int.tmod (Mpz.toInt (view (s.h n))) (Mpz.toInt (view (s.h d))) := by
+  obtain ⟨s', e, S⟩ := tdiv_qr_refines s q r n d hs hq hr hn hd hd0 hqr
+  have Eq := Spec.tdiv_q_spec (view (s.h q)) (view (s.h n)) (view (s.h d)) hq.2.1 hn.2 hd.2 hd0
+  have Er := Spec.tdiv_r_spec (n == r) (view (s.h r)) (view (s.h n)) (view (s.h d)) hr.2 hn.2 hd.2 hd0
+    (by intro h; have : n = r := by simpa using h
+        rw [this])
+  exact ⟨s', e, S.ok, ⟨S.bq, by rw [S.vq]; exact Eq.1⟩, ⟨S.br, by rw [S.vr]; exact Er.1⟩, S.frame, S.vq, S.vr,
+    by rw [S.vq]; exact Eq.2, by rw [S.vr]; exact Er.2⟩
+
+-- (B^3-1) = (B^2 - B)(B+1) + (B - 1): quotient into the one-limb variable 0, remainder in place on the denominator (variable 2);
+-- and quotient in place on the numerator, remainder into variable 0
+example : (mpz_tdiv_qr ex5 0 2 1 2).map (fun s => (s.ok, view (s.h 0), view (s.h 2))) =
+    some (true, ⟨2, 2, [0, B - 1]⟩, ⟨2, 1, [B - 1]⟩) := by decide
+example : (mpz_tdiv_qr ex5 1 0 1 2).map (fun s => (s.ok, view (s.h 1), view (s.h 0))) =
+    some (true, ⟨3, 2, [0, B - 1]⟩, ⟨2, 1, [B - 1]⟩) := by decide
+-- negative: `MPZ_REALLOC (quot, ql - 1)`, `MPZ_REALLOC (rem, dl - 1)`
+example : (tdiv_qr 1 0 ex5 0 3 1 2).map (fun s => s.ok) = some false := by decide
+example : (tdiv_qr 0 1 ex5 3 0 1 2).map (fun s => s.ok) = some false := by decide
 
 /-! ## mpz_sqrt (mpz/sqrt.c) -/
 
